@@ -12,7 +12,11 @@ CLAIMED = {
         "made no backend call, plus the rule's algebra (monotone in prefix length, mapped-form invariance, neutral malformed entries). "
         "TLC then emits about 1 600 (quick) / 4 800 (thorough) vectors at the real widths with the verdict; the harness evaluates both "
         "filter implementations and ValidateAuthentication, sends requests of every program/procedure class through HandleCall with the "
-        "recording backend, offers connections to the real acceptLoop over an in-memory listener, and TLC validates every recorded line.",
+        "recording backend, offers connections to the real acceptLoop over an in-memory listener, and TLC validates every recorded line. "
+        "Sessions (22 per address pattern) keep ONE connection open through the real connection loop while the allow-list / secure flag "
+        "are replaced with UpdatePolicyOptions between its requests (listed -> excluded -> listed, open -> restricted, secure off -> on): "
+        "each request must be judged by the policy in force when it arrives (spec action Reconfigure; TLC's non-vacuity variant "
+        "'conn_only' is the frozen-at-connect defect).",
    note="an IPv4 client against an IPv6 CIDR shorter than /96 that covers the mapped range, and positive matches involving a zone suffix, are "
         "accepted either way; handler dispatch is observed through the server's debug log line; connection-level vectors use TCP remote "
         "addresses only (malformed client strings are exercised at function and HandleCall level); rate limiting and TLS client "
@@ -28,7 +32,9 @@ CLAIMED = {
         "lists, sampled lists up to 16, 17 gids, truncation at every word, oversize names, other flavors); for each the harness records "
         "AuthResult and AuthContext, the caller's gid slice before and after (aliasing, including spare capacity), the effective ids "
         "HandleCall installs and on which of 14 probe objects ACCESS grants READ; TLC validates every line, relating the probes to the "
-        "squashed identity through the ACCESS rule.",
+        "squashed identity through the ACCESS rule. Sessions (30) send 3-5 requests with different credentials (AUTH_SYS identities, "
+        "AUTH_NONE, a refused flavor, an undecodable body) on ONE connection through the real connection loop; every request must be "
+        "served under its own squashed credential (spec action NextRequest; non-vacuity variant 'ctx_hoisted').",
    note="ids are opaque tokens in TLA+ (equality only); for an unrecognised mode only uid/gid are constrained; trailing bytes after a "
         "well-formed body and machine names of 256+ bytes are accepted either way; probe object ownership is set in-package"),
  "C12": dict(cat=MC, engine="Policy", design="5/C12",
